@@ -23,7 +23,9 @@ func c04Prop(st *CaseStats, fam int) func(t *rapid.T) {
 		sc := GenScenario(t)
 		cfg := CaseCfg{Family: fam, MaxDocs: 6, MaxIn: 3}
 		depth := 0
-		if fam == FamBig {
+		if fam == FamGiant {
+			depth = 0
+		} else if fam == FamBig {
 			cfg.MaxIn = 2
 			depth = rapid.SampledFrom([]int{0, 0, 1}).Draw(t, "depthBig")
 		} else if fam == FamSmall || fam == FamMid || fam == FamAligned {
@@ -55,6 +57,16 @@ func c04Prop(st *CaseStats, fam int) func(t *rapid.T) {
 			}
 			if !bytes.Equal(other, bs) {
 				t.Fatalf("case %s %s:\n  WriteTo with close channel nil=%v writes a different file (%d vs %d bytes, first difference at %d)", sc, c.Desc, ch == nil, len(other), len(bs), firstDiff(other, bs))
+			}
+		}
+		// into the caller's own bufio.Writer (smaller than, equal to and larger than the library's default buffer)
+		for _, size := range []int{16, 4096, 1 << 16} {
+			other, n, err := PersistBufio(c.Seg, size)
+			if err != nil {
+				t.Fatalf("case %s %s: WriteTo(bufio.Writer of %d): %v", sc, c.Desc, size, err)
+			}
+			if n != int64(len(other)) || !bytes.Equal(other, bs) {
+				t.Fatalf("case %s %s:\n  WriteTo into the caller's bufio.Writer(%d) returned %d; after the owner's Flush %d bytes arrived, the file has %d bytes", sc, c.Desc, size, n, len(other), len(bs))
 			}
 		}
 		mem, err := LoadMem(bs)
@@ -190,4 +202,10 @@ func TestC04Counts(t *testing.T) {
 	st := NewStats("C04Counts", c04Rule)
 	defer st.Flush()
 	rapid.Check(t, c04Prop(st, FamCounts))
+}
+
+func TestC04Giant(t *testing.T) {
+	st := NewStats("C04Giant", c04Rule)
+	defer st.Flush()
+	rapid.Check(t, c04Prop(st, FamGiant))
 }
